@@ -215,9 +215,37 @@ def eval_pair(ctx, case):
                 lines = wrap_outer(lines, o)
             wtext_src = "\n".join(lines) + "\n"
         elif kind == "include":
+            sl = case.get("slice")
+            ftext, opts = xtext if case.get("final_nl", True) else xtext.rstrip("\n"), []
+            if sl and any(mk in xtext for mk in ("SLICE-BEGIN", "SLICE-END")):
+                sl = None
+            if sl:
+                # X must be a closed piece of text (an unclosed fence / html block would swallow whatever the cut leaves around it)
+                try:
+                    if canon(render("\n" + xtext + "\n", src)[0].children) != canon(render(xtext, src)[0].children):
+                        sl = None
+                        ctx.count("include_slices:not-applicable-open-construct")
+                except Exception:  # noqa: BLE001
+                    sl = None
+            if sl == "regions":
+                # a file divided into regions that all end with the same marker: the selected region is the SECOND one (the end marker also occurs before the start marker)
+                ftext = "first region, not wanted\n\n<!-- SLICE-END -->\n\nbetween\n\n<!-- SLICE-BEGIN -->\n" + xtext + "<!-- SLICE-END -->\n\ntail, not wanted\n\n<!-- SLICE-END -->\n"
+                opts = [":start-after: <!-- SLICE-BEGIN -->", ":end-before: <!-- SLICE-END -->"]
+            elif sl == "after":
+                ftext = "not wanted\n\n<!-- SLICE-BEGIN -->\n" + xtext
+                opts = [":start-after: <!-- SLICE-BEGIN -->"]
+            elif sl == "before":
+                ftext = xtext + "<!-- SLICE-END -->\n\nnot wanted <!-- SLICE-END -->\n"
+                opts = [":end-before: <!-- SLICE-END -->"]
+            elif sl == "lines":
+                nx = xtext.count("\n")
+                ftext = "junk 1\n\njunk 2\n\n" + xtext + "\ntail junk\n"
+                opts = [":start-line: 4", f":end-line: {4 + nx}"]
+            if sl:
+                ctx.count("include_slices:" + sl)
             with open(os.path.join(TMP, "inc.md"), "w", encoding="utf8", newline="") as f:
-                f.write(xtext if case.get("final_nl", True) else xtext.rstrip("\n"))
-            wtext_src = "```{include} inc.md\n```\n"
+                f.write(ftext)
+            wtext_src = "```{include} inc.md\n" + "".join(o + "\n" for o in opts) + "```\n"
         elif kind == "subst_block":
             if any(t in xtext for t in ("{{", "{%", "{#", "}}")):
                 return False
@@ -428,7 +456,7 @@ def run_shard(ctx):
         if k < 5:
             case = {"kind": "directive", "layers": [rand_layer(R) for _ in range(R.choice([1, 1, 2, 3, 4]))], "outer": R.choice([[], [], [], ["quote"], ["list"], ["quote", "list"]])}
         elif k < 7:
-            case = {"kind": "include", "final_nl": R.random() < 0.7}
+            case = {"kind": "include", "final_nl": R.random() < 0.7, "slice": R.choice([None, None, "regions", "regions", "after", "before", "lines"])}
         elif k == 7:
             case = {"kind": "subst_block"}
         elif k == 8:
